@@ -127,7 +127,7 @@ def main():
         setup_cmd="./setup.sh",
         hooks=dict(guard="SVT_AV1_VERIF",
                    enable="every variant under /verif/.build is configured by lib/build.py with -DSVT_AV1_VERIF=1 added to CMAKE_C_FLAGS/CMAKE_CXX_FLAGS (out-of-tree, nothing written to /repo)",
-                   baseline_off_cmd="cmake --build /repo/_build && ctest --test-dir /repo/_build -j8 --timeout 900",
+                   baseline_off_cmd="cmake --build /repo/_build --target SvtAv1Enc SvtAv1Dec SvtAv1EncApp SvtAv1DecApp SvtAv1ApiTests SvtAv1UnitTests; ctest --test-dir /repo/_build -j8 --timeout 900",
                    source_commits=hooks, add_only=True),
         engines=[dict(name="hypothesis-sharded", path="lib/engine.py", serves_properties=[c["property_id"] for c in checks if c["engine"] == "hypothesis-sharded"],
                       kind_free_text=H + "; failing case re-executed 3x outside the generator, shrunk, written to replays/<id>/"),
